@@ -4,6 +4,7 @@ Configuring and executing emulator instances for guppy programs.
 
 from __future__ import annotations
 
+import copy
 from collections.abc import Iterator
 from dataclasses import dataclass, field, replace
 from typing import TYPE_CHECKING, Any, cast
@@ -174,9 +175,12 @@ class EmulatorInstance:
     def with_seed(self, value: int | None) -> Self:
         """Set the random seed for the emulator instance.
         Defaults to None."""
-        new_options = replace(self._options, _seed=value)
+        # The simulator object may be shared with the instance this one was derived
+        # from (and with its other descendants), so seed a copy instead of mutating it.
         # TODO flaky stateful, remove when selene simplifies
-        new_options._simulator.random_seed = value
+        simulator = copy.copy(self._options._simulator)
+        simulator.random_seed = value
+        new_options = replace(self._options, _seed=value, _simulator=simulator)
         out = replace(self, _options=new_options)
         return out
 
